@@ -188,7 +188,7 @@ def run(ctx):
         if b is None:
             report.lost_anchor(q)
             continue
-        fam = [b] + [x for x in prog.bodies.values() if x.kind == "Closure" and x.id.startswith(b.id + "::")]
+        fam = [b] + mu.closures_of(prog, b)
         filt = None
         for x in fam:
             for bi, t in mu.calls(x, r"^std::iter::Iterator::filter$"):
